@@ -117,3 +117,13 @@ package canary
 
 //@ struct canary.wire [S] A B
 //@ struct canary.wire [S] A
+
+//@ func FreshLie
+//@   tags S
+//@   fresh
+//@   ensures @len [S] len(result) == len(xs)
+
+//@ func FreshTrue
+//@   tags S
+//@   fresh
+//@   ensures @nonneg [S] len(result) >= 0
